@@ -227,6 +227,13 @@ def adapters(rng):
                      pd.to_timedelta(np.cumsum(rng.integers(60, 3000, size=30)), unit="s"))
     add(("dutils.var2h", lambda v: dutils.var2h(vser)))
     add(("qc.ismisscens", lambda v: qc.ismisscens(np.asarray(v.a1(obs)))))
+    # options that may be arrays (one detection limit per sample, 0-d arrays)
+    add(("qc.ismisscens-array-options", lambda v: (
+        qc.ismisscens(np.asarray(v.a1(obs), dtype=float), censor=v.a1(obs * 0 + 0.7),
+                      eps=0.05),
+        qc.ismisscens(np.asarray(v.a1(obs), dtype=float), censor=np.array(0.7),
+                      eps=np.array(0.05)),
+        qc.ismisscens(np.asarray(v.a1(obs), dtype=float), censor=np.array([0.7])))))
     add(("qc.islinear", lambda v: qc.islinear(
         np.asarray(v.a1(obs), dtype=float) if v.kind in ("pandas", "int") else v.a1(obs))))
     add(("signatures.eckhardt", lambda v: signatures.eckhardt(v.a1(obs))))
